@@ -182,12 +182,14 @@ class Model:
             self.bundles.append({'time': now, 'lat': 0, 'who': who,
                                  'elems': [['/m', op[1]]], 'msg': True})
         elif k == 'bundle':
-            if self.bundle_ok(op[1], op[2]):
-                self.bundles.append({'time': now, 'lat': op[1], 'who': who,
-                                     'elems': op[2], 'msg': False})
-            else:
-                self.trace.append({'kind': 'refused', 'r': who, 'op': op,
-                                   'secs': now})
+            for _ in range(2 if len(op) > 3 and op[3] == 'twice' else 1):
+                if self.bundle_ok(op[1], op[2]):
+                    self.bundles.append({'time': now, 'lat': op[1],
+                                         'who': who, 'elems': op[2],
+                                         'msg': False})
+                else:
+                    self.trace.append({'kind': 'refused', 'r': who, 'op': op,
+                                       'secs': now})
         elif k == 'cwait':
             if not self.cond_test[op[1]]:
                 self.cond_wait[op[1]].append(who)
